@@ -292,6 +292,33 @@ def check_case(case):
             bad("center:estimator-zero", f"estimator {case['estimator']} (by_chrom={case['by_chrom']}, skip_low={case['skip_low']}, "
                                          f"par={case['par']}) of the selected bins after centring is {cands[:4]}, not 0; shift applied {d[0]!r}; "
                                          f"groups {[(k, len(v)) for k, v in groups.items()][:8]}")
+        # ---- the flat expectation on this table, whichever chromosomes it holds (a panel may have Y bins and no X bin:
+        # seeded change C15n derived the X / Y labels from the presence of a chrX row): -1 on Y, -1 on non-PAR X under a
+        # male reference, 0 elsewhere
+        fresh = CopyNumArray(df.copy(), {"sample_id": "s"})
+        # (cnvkit reads the naming style off the first row: a table that mixes scaffold_N names with chrX / chrY is in
+        # neither of the two naming styles the claim covers, so it is not asked)
+        one_style = all(r["chromosome"].startswith("chr") == rows[0]["chromosome"].startswith("chr") for r in rows)
+        for male_ref in ((False, True) if one_style else ()):
+            flat = np.asarray(fresh.expect_flat_log2(male_ref, case["par"]), dtype=float)
+            want_flat = []
+            for r in rows:
+                bare = r["chromosome"][3:] if r["chromosome"].startswith("chr") else r["chromosome"]
+                if bare == "Y":
+                    # (a PAR-Y bin under a male reference with a PAR genome is left open: cnvkit expects no coverage
+                    # there because everything maps to X, and the statement does not speak of PAR-Y)
+                    open_ = male_ref and case["par"] and "Y" in PAR[case["par"]] and in_par("Y", r["start"], r["end"], case["par"])
+                    want_flat.append(None if open_ else -1.0)
+                elif bare == "X" and male_ref and not in_par("X", r["start"], r["end"], case["par"]):
+                    want_flat.append(-1.0)
+                else:
+                    want_flat.append(0.0)
+            wrong = [i for i, w in enumerate(want_flat) if w is not None and flat[i] != w]
+            if wrong:
+                k = wrong[0]
+                bad("center:expect_flat", f"expect_flat_log2(male_reference={male_ref})[{k}] = {flat[k]!r} for {rows[k]['chromosome']}:{rows[k]['start']}, "
+                                          f"expected {want_flat[k]!r}; chromosomes {list(dict.fromkeys(r['chromosome'] for r in rows))}")
+                break
         # ---- command-line tier (a quarter of the per-chromosome cases): `cnvkit.py call --center EST [--drop-low-coverage]
         # [--diploid-parx-genome G] -m none` on the written table = center_all + do_call on the same file
         if gen.pick(case, "cli", 4) == 0 and not out and case["by_chrom"]:
